@@ -414,7 +414,7 @@ def finish(scn, V, stats, sch, end_state):
 
 
 BUDGET = {
-    "quick": {"runs": 2400, "seconds": 50, "selfcheck": 2, "crosscheck": 8},
+    "quick": {"runs": 3600, "seconds": 50, "selfcheck": 2, "crosscheck": 8},
     "thorough": {"runs": 150000, "seconds": 1200, "selfcheck": 10, "crosscheck": 40},
 }
 
